@@ -77,6 +77,10 @@ def ws(rng, mandatory=False):
 def enc_br(rng, node, root=False, emptyroot=False, disco=False):
     if not node.children:
         w = str(node.data['num']) if disco else node.data['word']
+        if node.data.get('_emptypos'):
+            # a token written without a tag (brackets_emptypos); the closing bracket follows at once - with white space
+            # in between the group reads as a constituent label without children and is rejected, by design
+            return "(" + ws(rng) + w + ")"
         return "(" + ws(rng) + node.data['label'] + ws(rng, True) + w + ws(rng) + ")"
     lab = "" if (root and emptyroot) else node.data['label']
     s = "(" + ws(rng) + lab + ws(rng)
@@ -155,6 +159,8 @@ def reader_opts(rng, fmt):
         o['continuous'] = True
     if fmt in ("brackets", "discobrackets") and rng.random() < 0.3:
         o['brackets_firstid'] = rng.choice([0, 0, 1, rng.randint(2, 50)])
+    if fmt == "brackets" and rng.random() < 0.25:
+        o['brackets_emptypos'] = True
     return o
 
 
@@ -179,6 +185,14 @@ def brackets_case(rng):
             t.data['label'] = ""
         elif rng.random() < 0.5:
             t.data['label'] = "VROOT"
+        if not disco and opts.get('brackets_emptypos'):
+            # tokens written without a tag: the word is the word as written, whatever else the reader is asked to do
+            for x in trees.terminals(t):
+                if rng.random() < 0.3:
+                    x.data['_emptypos'] = True
+                    x.data['label'] = "EMPTY"
+                    if rng.random() < 0.5:
+                        x.data['word'] = rng.choice(["U-Bahn", "A-B-1", "x=2", "E-Mail-3", "a'"])
         if disco:
             # every whitespace layout of the sentence part: blanks / TABs in any number between the words, after the TAB
             # and before the line break, blank lines between sentences
